@@ -150,6 +150,22 @@ impl Stage for LargeTable {
             if table_built && !compare_dumps(&eg, &model, &format!("after command #{i} `{}`", prog.sig.cmd(c)), &mut out) {
                 break;
             }
+            if table_built {
+                // the canonical dump canonicalises ids itself, so a row left with a displaced id is invisible there:
+                // look at the raw ids too, and ask the engine directly about the equality just asserted
+                if let Some(v) = crate::inv::check_all(&eg) {
+                    out.fail(format!("large-table:{}", v.sig), format!("after command #{i} `{}`: {}", prog.sig.cmd(c), v.detail));
+                    break;
+                }
+                if let Cmd::Act(Action::Union(a, b)) = c {
+                    let text = format!("(check (= {} {}))", prog.sig.term(a), prog.sig.term(b));
+                    let mut clone = eg.clone();
+                    if !crate::eng::run(&mut clone, &text).is_ok() {
+                        out.fail("check-missed-equality", format!("right after `{}`, `{text}` fails", prog.sig.cmd(c)));
+                        break;
+                    }
+                }
+            }
         }
         let after = crate::runner::path_counters().get("table_rebuild_incremental").copied().unwrap_or(0);
         if after > before {
